@@ -14,6 +14,10 @@ package server
 // counts, cursors, values and error / success class.
 
 import (
+	"encoding/binary"
+	"encoding/base64"
+	"crypto/sha1"
+	"bytes"
 	"encoding/json"
 	"fmt"
 	"math"
@@ -329,6 +333,8 @@ func c17Setup(c *Cli, state string) map[string]string {
 		// ids / keys / values with control characters, DEL, NUL and invalid UTF-8
 		c.Do("SET", "kc\x01\x1b", "i\x7f\x00d", "FIELD", "f\x02", "3", "STRING", "v\x1b[0m\x7f")
 		c.Do("SET", "kc\x01\x1b", "bad\xffutf", "FIELD", "g\x0b", "4", "POINT", "1", "2")
+		// a value larger than 64 KiB (8-byte WebSocket length, native length prefix)
+		c.Do("SET", "kbig", "v", "STRING", strings.Repeat("0123456789", 7000))
 		// field values at the edges of the number type
 		c.Do("SET", "kn", "a", "FIELD", "nan", "NaN", "FIELD", "pinf", "+Inf", "FIELD", "ninf", "-Inf", "FIELD", "big", "1e308", "FIELD", "tiny", "1e-320", "FIELD", "negz", "-0", "FIELD", "int", "9007199254740993", "POINT", "1", "2")
 		c.Do("SET", "kn", "b", "FIELD", "nan", "1", "POINT", "1", "3")
@@ -353,6 +359,7 @@ func c17Extra(state string) [][]string {
 		{"GET", "k1", "unié世"}, {"SEARCH", "k1"}, {"JGET", k, id}, {"PDEL", k, `i*`}, {"GET", "no\"such", "x"}, {"GET", k, "no\"id"}, {"FSET", k, "no\"id", "f", "1"},
 		{"BOGUS\"CMD", "x"}, {"SET", k, "x", "POINT", "bad\"num", "1"}, {"DELCHAN", `ch"q`},
 		{"SCAN", "kc\x01\x1b"}, {"SCAN", "kc\x01\x1b", "IDS"}, {"GET", "kc\x01\x1b", "i\x7f\x00d", "WITHFIELDS"}, {"GET", "kc\x01\x1b", "bad\xffutf"}, {"KEYS", "kc*"}, {"GET", "kc\x01\x1b", "no\x1bsuch"}, {"GET", "no\x7fkey", "x"}, {"ECHO\x01", "x"}, {"TYPE", "kc\x01\x1b"}, {"SEARCH", "kc\x01\x1b"},
+		{"GET", "kbig", "v"}, {"SCAN", "kbig"},
 		{"GET", "kn", "a", "WITHFIELDS"}, {"SCAN", "kn"}, {"SCAN", "kn", "POINTS"}, {"FGET", "kn", "a", "nan"}, {"FGET", "kn", "a", "pinf"}, {"FGET", "kn", "a", "int"}, {"NEARBY", "kn", "POINT", "1", "2"}, {"SCAN", "kn", "WHERE", "nan", "0", "2"}, {"SCAN", "kn", "WHERE", "pinf", ">", "5"},
 		{"SCAN", "kf", "LIMIT", "1"}, {"SCAN", "kf", "LIMIT", "2"}, {"SCAN", "kf", "LIMIT", "3"}, {"SCAN", "kf", "CURSOR", "1", "LIMIT", "2"}, {"NEARBY", "kf", "LIMIT", "2", "POINT", "1", "1"}, {"NEARBY", "kf", "DISTANCE", "IDS", "POINT", "1", "1"}, {"NEARBY", "kf", "DISTANCE", "POINT", "1", "2"}, {"NEARBY", "kf", "DISTANCE", "LIMIT", "1", "IDS", "POINT", "1", "3"}, {"WITHIN", "kf", "LIMIT", "3", "BOUNDS", "0", "0", "5", "5"}, {"SCAN", "kf", "LIMIT", "2", "POINTS"},
 		{"SCAN", "k%d"}, {"SCAN", "k%d", "IDS"}, {"SEARCH", "k%d"}, {"GET", "k%d", "100%", "WITHFIELDS"}, {"GET", "k%d", "%x", "WITHFIELDS", "POINT"}, {"FGET", "k%d", "100%", "g%"}, {"NEARBY", "k%d", "POINT", "1", "2"},
@@ -360,7 +367,7 @@ func c17Extra(state string) [][]string {
 }
 
 func checkC17(job *Job, res *Result) {
-	res.Rule = "SEQ over the command table: catalogue command x argument shape (+ 27 commands on names needing escaping) x state {empty, populated, escaping} on two identical servers in lockstep (RESP mode / JSON mode), plus telnet, native and HTTP transports; distinct = distinct (state, command, shape, reply class RESP, ok JSON)"
+	res.Rule = "SEQ over the command table: catalogue command x argument shape (+ 27 commands on names needing escaping) x state {empty, populated, escaping} on two identical servers in lockstep (RESP mode / JSON mode), plus telnet, native, HTTP and WebSocket transports; distinct = distinct (state, command, shape, reply class RESP, ok JSON)"
 	res.Assumptions = append(res.Assumptions, "RESP may answer nil / 0 / -2 / 'none' where JSON answers with a 'not found' error (documented convention)",
 		"commands that switch the connection to a stream (SUBSCRIBE, PSUBSCRIBE, MONITOR, AOF, FENCE searches) are checked for their first reply only")
 	repo, _ := job.Params["repo"].(string)
@@ -590,6 +597,49 @@ func checkC17(job *Job, res *Result) {
 					}
 				}
 				hc.Close()
+				// WebSocket -> 101 handshake, then one unmasked text frame carrying the JSON document
+				wc := x.Dial(b.Addr)
+				wsKey := "dGhlIHNhbXBsZSBub25jZQ=="
+				wc.Send([]byte("GET /" + url.PathEscape(line) + " HTTP/1.1\r\nHost: x\r\nUpgrade: websocket\r\nConnection: Upgrade\r\nSec-WebSocket-Version: 13\r\nSec-WebSocket-Key: " + wsKey + "\r\n\r\n"))
+				vsched.WaitUntilOr(func() bool { return wc.c.EOF() }, int64(5*stdtime.Second))
+				vsched.Quiesce()
+				wb := wc.c.Drain()
+				wc.Close()
+				if hi := bytes.Index(wb, []byte("\r\n\r\n")); !bytes.HasPrefix(wb, []byte("HTTP/1.1 101 ")) || hi < 0 {
+					viol("websocket-handshake", "the upgrade request was answered "+vclip(string(wb), 160))
+				} else {
+					sum := sha1.Sum([]byte(wsKey + "258EAFA5-E914-47DA-95CA-C5AB0DC85B11"))
+					if !bytes.Contains(wb[:hi], []byte("Sec-WebSocket-Accept: "+base64.StdEncoding.EncodeToString(sum[:]))) {
+						viol("websocket-handshake", "wrong or missing Sec-WebSocket-Accept in "+vclip(string(wb[:hi]), 200))
+					}
+					fr := wb[hi+4:]
+					var payload []byte
+					okFrame := len(fr) >= 2 && fr[0] == 0x81 && fr[1]&0x80 == 0
+					if okFrame {
+						switch n := int(fr[1] & 0x7f); {
+						case n < 126:
+							okFrame = len(fr) == 2+n
+							payload = fr[2:]
+						case n == 126:
+							okFrame = len(fr) >= 4 && len(fr) == 4+int(binary.BigEndian.Uint16(fr[2:])) && int(binary.BigEndian.Uint16(fr[2:])) >= 126
+							if okFrame {
+								payload = fr[4:]
+							}
+						default:
+							okFrame = len(fr) >= 10 && uint64(len(fr)) == 10+binary.BigEndian.Uint64(fr[2:]) && binary.BigEndian.Uint64(fr[2:]) > 0xFFFF
+							if okFrame {
+								payload = fr[10:]
+							}
+						}
+					}
+					if !okFrame {
+						viol("websocket-frame", fmt.Sprintf("not exactly one well-formed unmasked text frame with a minimal length encoding: %d bytes after the handshake, first bytes % x", len(fr), fr[:min(len(fr), 12)]))
+					} else if _, p := jsonDoc(string(payload)); p != "" {
+						viol("websocket-json-malformed", p+": "+vclip(string(payload), 200))
+					} else if !mutating(it.name) && !c17Volatile[it.name] && j.K == '$' && c17Norm(j.S) != c17Norm(string(payload)) {
+						viol("transports-disagree", fmt.Sprintf("JSON-mode connection %s | WebSocket %s", vclip(c17Norm(j.S), 200), vclip(c17Norm(string(payload)), 200)))
+					}
+				}
 			}
 		})
 		if len(x.Crashes) > 0 {
@@ -610,7 +660,7 @@ func mutating(name string) bool {
 }
 
 // commands whose reply legitimately differs between two executions
-var c17Volatile = map[string]bool{"SERVER": true, "INFO": true, "STATS": false, "GC": true, "HEALTHZ": false, "CLIENT": true, "CONFIG": false, "TIMEOUT": false, "SLEEP": true}
+var c17Volatile = map[string]bool{"TTL": true /* virtual time passes while a transport waits for the close */, "SERVER": true, "INFO": true, "STATS": false, "GC": true, "HEALTHZ": false, "CLIENT": true, "CONFIG": false, "TIMEOUT": false, "SLEEP": true}
 
 // c17Norm: the document without "elapsed", keys sorted.
 func c17Norm(body string) string {
